@@ -108,16 +108,33 @@ def thread_scenario(rng, k, forced):
                 stages=[dict(children=[dict(subs=[{}], threads=n)], gate=gate)], timeout=150)
 
 
+def routes_scenario(rng, k, forced):
+    """One checksum reached by different routes at the same time: 1-2 processes submit the python task directly
+    (job name "main"), another one submits a workflow whose first node IS that task (job name "a").  The model
+    instance is the shared checksum (focus_prefix); body executions are counted per checksum (side lines `pid x`).
+    forced: the direct submitter is taken to job.body_enter, then the workflow runs until it blocks on the node."""
+    nd = rng.choice([1, 1, 2])
+    gate = dict(policy=rng.choice(["random", "bursts", "roundrobin"]), seed=rng.randrange(10 ** 6))
+    if forced:
+        gate["script"] = [[0, 17, 0, 30.0], [nd, 26, 1.0, 1.5]]
+    return dict(name="c10-routes-%d" % k, pre=False, focus_prefix="python-",
+                task=dict(task="python", x=rng.randrange(1, 40), delay=rng.choice([0.0, 0.1])),
+                stages=[dict(children=[dict(subs=[{}]) for _ in range(nd)] + [dict(subs=[{"task": "workflow"}])],
+                             gate=gate)], timeout=200)
+
+
 def gen_scenarios(rng, n, corpus):
     out = [c["scenario"] for c in corpus if "scenario" in c]
     out.append(errored_first(rng, 0, True))
     out.append(thread_scenario(rng, 0, True))
+    out.append(routes_scenario(rng, 0, True))
     out.append(wf_scenario(rng, 0, "debug"))
     out.append(wf_scenario(rng, 1, "cf") if rng.random() < 0.5 else cf_python(rng, 1))
     if n > 20:
         out += [wf_scenario(rng, 10 + j, "debug") for j in range(6)] + [wf_scenario(rng, 20 + j, "cf") for j in range(3)]
         out += [cf_python(rng, 30 + j) for j in range(3)]
         out += [thread_scenario(rng, 40 + j, j % 2 == 0) for j in range(8)]
+        out += [routes_scenario(rng, 50 + j, j % 2 == 0) for j in range(6)]
     k = 0
     while len(out) < n:
         if k % 9 == 5:
@@ -143,7 +160,7 @@ def alternations(ev):
 
 
 def run(ctx):
-    n = ctx.budget(8, 68)
+    n = ctx.budget(9, 74)
     scs = gen_scenarios(ctx.rng, n, ctx.corpus())
     with cf.ThreadPoolExecutor(max_workers=6) as ex:
         results = list(ex.map(procs.run_scenario, scs))
@@ -157,7 +174,16 @@ def run(ctx):
         bv = procs.expected_value(sc["task"])
         before = res["runs_stage"][-2] if len(res["runs_stage"]) >= 2 else 0
         nlast = sum(max(1, int(cd.get("threads", 0))) for cd in sc["stages"][-1]["children"])
-        who = [c["idx"] for c in res["children"][-nlast:]]
+        who = [c["idx"] for c in res["children"][-nlast:] if c.get("direct") is not False]
+        if sc.get("focus_prefix"):
+            dist["different_routes"] = dist.get("different_routes", 0) + 1
+            x = sc["task"].get("x", 3)
+            wf = [c for c in res["children"] if c.get("direct") is False]
+            wf_ok = all(c["report"] and c["report"][-1].get("out") == 2 * (2 * x + 1) + 1 for c in wf)
+            if res["runs_by_x"].get(str(2 * x + 1), 0) != 1 or not wf_ok:
+                out.failures.append(Failure(case={"scenario": sc}, observed=_obs(res),
+                                            expected="the workflow returns %d and its second node body runs once" % (2 * (2 * x + 1) + 1),
+                                            note="C10 spec: workflow sharing a node with a direct submission", kind="spec"))
         nodes = "None"
         if sc["task"]["task"] == "workflow":
             x = sc["task"].get("x", 3)
@@ -318,7 +344,7 @@ def replay(ctx, payload):
     bv = procs.expected_value(sc["task"])
     before = res["runs_stage"][-2] if len(res["runs_stage"]) >= 2 else 0
     nlast = sum(max(1, int(cd.get("threads", 0))) for cd in sc["stages"][-1]["children"])
-    who = [c["idx"] for c in res["children"][-nlast:]]
+    who = [c["idx"] for c in res["children"][-nlast:] if c.get("direct") is not False]
     nodes = "None"
     if sc["task"]["task"] == "workflow":
         x = sc["task"].get("x", 3)
